@@ -16,8 +16,8 @@ def setup(register, COMMON_TB):
             "modelled, not verified: crypto/tls.X509KeyPair (a Secret carries the flag 'well-formed kubernetes.io/tls secret'); "
             "validationfakes stand for the data-plane validators (import cycle); Go map iteration over ReferenceGrants is an arbitrary "
             "order (theorem C06_order_irrelevant quantifies over it)",
-            "frame of the generated inputs: valid routes (no hostname/match/filter errors), no backendRef-level filters (defect D1 of C05 "
-            "panics on them), no BackendTLSPolicy, no NginxProxy, no listener port/hostname conflicts, one Gateway",
+            "frame of the generated inputs: valid routes (no hostname/match/filter errors), backendRef-level filters only when a start-up probe shows they do not panic (defect D1 of C05), "
+            "no BackendTLSPolicy, no NginxProxy, no listener port/hostname conflicts, one Gateway",
             "that a ReferenceGrant event always triggers a rebuild (change processor) is checked by the C01 harness, not here",
         ],
         assumptions=[
